@@ -7,6 +7,7 @@ package server
 
 import (
 	"crypto/sha256"
+	"io"
 	"encoding/json"
 	"fmt"
 	"os"
@@ -21,6 +22,7 @@ import (
 	"github.com/bamzi/jobrunner"
 	"github.com/dgraph-io/badger/v4"
 	"go.uber.org/zap"
+	"go.uber.org/zap/zapcore"
 
 	"github.com/mimiro-io/datahub/internal/conf"
 )
@@ -29,6 +31,10 @@ import (
 type VerifC20Op struct {
 	Op  string `json:"op"` // w = write one entity | b = backup run | r = restart hub | i = environment replaces the location's id file by ID | x = environment removes it
 	ID  string `json:"id"`
+	// op c = a native backup run during which a writer commits Post (forced schedule: the writes are issued from
+	// Badger's stream log line "Sent data of size", i.e. after the dump read its snapshot and before Backup returns)
+	// op d = Store.Delete() ("delete all datasets") + NewDsManager; op f = rsync-mode run whose rsync exits 24
+	Post []VerifC20Op `json:"post"`
 	Ds  int    `json:"ds"`
 	K   int    `json:"k"`
 	V   int    `json:"v"`
@@ -61,11 +67,22 @@ type VerifC20Obs struct {
 	Sid      string    `json:"sid"`     // content of the store's DATAHUB_BACKUPID
 	LocID    []*string `json:"locid"`   // content of the location's DATAHUB_BACKUPID after each op (index 0 = before the first), null = absent
 	Touched  []bool    `json:"touched"` // per op: some file below the location changed (content digest) during the op
+	SidV     []string  `json:"sidv"`    // the store's own DATAHUB_BACKUPID after each op
+	Running  []bool    `json:"running"` // BackupManager.isRunning after each op
+	DiskRaw  [][]int   `json:"diskraw"` // raw bytes of datahub-backup.lastseen after each op, null = absent
+	Post     [][]uint64 `json:"post"`   // per op: store version after each write the concurrent writer committed (op c)
 }
 
 const verifC20NS = "http://v/"
 
+type verifC20Hook struct {
+	mu sync.Mutex
+	fn func() // runs once when Badger's backup stream has sent its data
+}
+
 type verifC20Hub struct {
+	cfg   *conf.Config
+	hook  *verifC20Hook
 	dir   string
 	store *Store
 	dsm   *DsManager
@@ -82,15 +99,30 @@ func verifC20Open(dir, bdir string, rsync bool) (h *verifC20Hub, err error) {
 		}
 	}()
 	verifC20CronOnce.Do(func() { jobrunner.Start() })
+	// a logger that writes nowhere but lets the driver act on one Badger log line (the forced schedule of op c)
+	hk := &verifC20Hook{}
+	core := zapcore.NewCore(zapcore.NewJSONEncoder(zap.NewProductionEncoderConfig()), zapcore.AddSync(io.Discard), zapcore.InfoLevel)
+	logger := zap.New(core, zap.Hooks(func(e zapcore.Entry) error {
+		if strings.Contains(e.Message, "DB.Backup Sent data of size") {
+			hk.mu.Lock()
+			fn := hk.fn
+			hk.fn = nil
+			hk.mu.Unlock()
+			if fn != nil {
+				fn()
+			}
+		}
+		return nil
+	}))
 	cfg := &conf.Config{
-		Logger: zap.NewNop().Sugar(), StoreLocation: dir,
+		Logger: logger.Sugar(), StoreLocation: dir,
 		BackupLocation: bdir, BackupSchedule: "0 0 1 1 *", BackupRsync: rsync,
 		// configuration knobs only (store.go Open): keep the mmap'ed value log and the block cache small
 		ValueLogFileSize: 4 << 20, BlockCacheSize: 8 << 20,
 	}
 	store := NewStore(cfg, &statsd.NoOpClient{})
 	dsm := NewDsManager(cfg, store, NoOpBus())
-	h = &verifC20Hub{dir: dir, store: store, dsm: dsm}
+	h = &verifC20Hub{cfg: cfg, hook: hk, dir: dir, store: store, dsm: dsm}
 	if bdir != "" {
 		bm, err := NewBackupManager(store, cfg)
 		// NewBackupManager registers the manager with the global cron; drop the entry again, otherwise every
@@ -250,12 +282,33 @@ func verifC20DirState(dir string) string {
 			return nil
 		}
 		rel, _ := filepath.Rel(dir, p)
-		b, _ := os.ReadFile(p)
-		lines = append(lines, fmt.Sprintf("%s %d %x", rel, len(b), b))
+		hsh := sha256.New()
+		if f, err := os.Open(p); err == nil {
+			// the rsync copy holds Badger's pre-allocated 256 MB memtable log: only its head is ever written
+			_, _ = io.Copy(hsh, io.LimitReader(f, 8<<20))
+			f.Close()
+		}
+		lines = append(lines, fmt.Sprintf("%s %d %x", rel, info.Size(), hsh.Sum(nil)))
 		return nil
 	})
 	sort.Strings(lines)
 	return strings.Join(lines, "\n")
+}
+
+var verifC20RsyncOnce sync.Once
+
+// a stand-in `rsync` first on PATH: same contract as `rsync -avz --delete SRC DEST` for a directory SRC (DEST/<base of
+// SRC> becomes a copy of SRC), but cheap on Badger's sparse files; exits 24 once when <parent of DEST>/rsync.fail exists
+func verifC20RsyncStandIn(scratch string) {
+	verifC20RsyncOnce.Do(func() {
+		bin := filepath.Join(scratch, "c20bin")
+		_ = os.MkdirAll(bin, 0o755)
+		script := "#!/bin/sh\nsrc=\"$3\"; dest=\"$4\"\nctl=\"$(dirname \"$dest\")/rsync.fail\"\n" +
+			"if [ -e \"$ctl\" ]; then rm -f \"$ctl\"; echo 'rsync warning: some files vanished before they could be transferred (code 24)' >&2; exit 24; fi\n" +
+			"rm -rf \"$dest/$(basename \"$src\")\" && cp -a --sparse=always \"$src\" \"$dest/\"\n"
+		_ = os.WriteFile(filepath.Join(bin, "rsync"), []byte(script), 0o755)
+		_ = os.Setenv("PATH", bin+string(os.PathListSeparator)+os.Getenv("PATH"))
+	})
 }
 
 func verifC20FileSize(p string) int64 {
@@ -342,6 +395,10 @@ func VerifC20Run(c VerifC20Case, dir string) (obs VerifC20Obs) {
 		}
 	}()
 	obs.LocID, obs.Touched = []*string{}, []bool{}
+	obs.SidV, obs.Running, obs.DiskRaw, obs.Post = []string{}, []bool{}, [][]int{}, [][]uint64{}
+	if c.Rsync {
+		verifC20RsyncStandIn(filepath.Dir(dir))
+	}
 	if c.Foreign {
 		_ = os.MkdirAll(bdir, 0o755)
 		_ = os.WriteFile(filepath.Join(bdir, StorageIDFileName), []byte(c.LocID0), 0o644)
@@ -374,6 +431,21 @@ func VerifC20Run(c VerifC20Case, dir string) (obs VerifC20Obs) {
 		now := verifC20DirState(bdir)
 		obs.Touched = append(obs.Touched, now != dirBefore)
 		dirBefore = now
+		sb, _ := os.ReadFile(filepath.Join(src, StorageIDFileName))
+		obs.SidV = append(obs.SidV, string(sb))
+		obs.Running = append(obs.Running, h.bm.isRunning)
+		if raw, err := os.ReadFile(filepath.Join(bdir, "datahub-backup.lastseen")); err == nil {
+			ints := make([]int, len(raw))
+			for i, x := range raw {
+				ints[i] = int(x)
+			}
+			obs.DiskRaw = append(obs.DiskRaw, ints)
+		} else {
+			obs.DiskRaw = append(obs.DiskRaw, nil)
+		}
+		for len(obs.Post) < len(obs.Bres) {
+			obs.Post = append(obs.Post, []uint64{})
+		}
 		obs.MaxV = append(obs.MaxV, h.store.database.MaxVersion())
 		obs.Cursor = append(obs.Cursor, h.bm.lastID)
 		obs.Disk = append(obs.Disk, verifC20DiskCursor(bdir))
@@ -412,14 +484,50 @@ func VerifC20Run(c VerifC20Case, dir string) (obs VerifC20Obs) {
 		case "x":
 			_ = os.Remove(filepath.Join(bdir, StorageIDFileName))
 			record(0, before)
-		case "b":
+		case "d":
+			if err := h.store.Delete(); err != nil {
+				obs.Outcome = "setup-error"
+				obs.Detail = "delete: " + err.Error()
+				return
+			}
+			h.dsm = NewDsManager(h.cfg, h.store, NoOpBus()) // as at hub start: core.Dataset is recreated
+			record(0, before)
+		case "b", "c", "f":
 			rows, rich := verifC20Reads(h)
 			raw := verifC20Raw(h.store.database)
+			stamps := []uint64{}
+			if op.Op == "c" {
+				hub, post := h, op.Post
+				h.hook.mu.Lock()
+				h.hook.fn = func() {
+					for _, w := range post {
+						if err := verifC20Write(hub, w); err != nil {
+							return
+						}
+						stamps = append(stamps, hub.store.database.MaxVersion())
+					}
+				}
+				h.hook.mu.Unlock()
+			}
+			ctl := filepath.Join(dir, "rsync.fail")
+			if op.Op == "f" {
+				_ = os.WriteFile(ctl, []byte("x"), 0o644)
+			}
 			code := verifC20Backup(h.bm)
+			h.hook.mu.Lock()
+			h.hook.fn = nil
+			h.hook.mu.Unlock()
+			if op.Op == "f" {
+				if _, err := os.Stat(ctl); err != nil && code == 1 {
+					code = 5 // the stand-in rsync ran and exited 24; Run logged the error and returned
+				}
+				_ = os.Remove(ctl)
+			}
 			if code == 1 {
 				snapRows, snapRich, snapRaw = rows, rich, raw
 				obs.HasSnap = true
 			}
+			obs.Post = append(obs.Post, stamps)
 			record(code, before)
 		}
 	}
@@ -436,7 +544,7 @@ func VerifC20Run(c VerifC20Case, dir string) (obs VerifC20Obs) {
 		if _, err := os.Stat(cand); err != nil {
 			return
 		}
-		if out, err := exec.Command("cp", "-a", cand, rdir).CombinedOutput(); err != nil {
+		if out, err := exec.Command("cp", "-a", "--sparse=always", cand, rdir).CombinedOutput(); err != nil {
 			obs.Detail = "cp: " + string(out)
 			return
 		}
